@@ -1,4 +1,4 @@
-package main
+package main_test
 
 // C10 — concurrent requests do not influence each other.
 
